@@ -1,5 +1,10 @@
 package nfa
 
+import (
+	"sync"
+	"sync/atomic"
+)
+
 // BoundedBacktracker implements a bounded backtracking regex matcher.
 // It uses generation-based visited tracking with uint8 for (state, position) pairs,
 // providing 4x memory efficiency over uint32 tracking while maintaining O(1) reset.
@@ -14,8 +19,13 @@ package nfa
 //
 // BoundedBacktracker is 2-5x faster than PikeVM for patterns like \d+, \w+, [a-z]+.
 //
-// Thread safety: BoundedBacktracker config is immutable after creation.
-// Use BacktrackerState for per-search mutable state to enable concurrent usage.
+// Thread safety: a *BoundedBacktracker is safe for concurrent use by multiple
+// goroutines. All mutable per-search state lives in a BacktrackerState: the
+// *WithState methods use the state the caller brings (one state per goroutine),
+// the methods without a state argument (IsMatch, IsMatchAnchored, Search, SearchAt)
+// take one from the backtracker's own pool for the duration of the call.
+// SetLongest is configuration and NOT synchronized: call it before the
+// backtracker is shared, never concurrently with searches.
 type BoundedBacktracker struct {
 	nfa *NFA
 
@@ -26,14 +36,23 @@ type BoundedBacktracker struct {
 	// Default: 256M entries = 256MB memory, handles 6MB+ inputs for 35-state patterns
 	maxVisitedSize int
 
-	// internalState is used by legacy non-thread-safe methods.
-	// For concurrent usage, use *WithState methods with external BacktrackerState.
+	// internalState holds the configuration (Longest) that the methods without a
+	// state argument copy into the pooled state they search with. Its visited
+	// table is never used: no search writes to internalState.
 	internalState BacktrackerState
+
+	// Pooled states for the methods without a state argument. localState is a
+	// single-slot cache in front of the pool (survives GC, serves the uncontended
+	// case without touching sync.Pool); statePool takes the overflow when several
+	// goroutines search at once.
+	localState atomic.Pointer[BacktrackerState]
+	statePool  sync.Pool
 }
 
 // BacktrackerState holds mutable per-search state for BoundedBacktracker.
-// This struct should be pooled (via sync.Pool) for concurrent usage.
-// Each goroutine must use its own BacktrackerState instance.
+// A BacktrackerState must never be used by two searches at the same time:
+// callers of the *WithState methods keep one per goroutine (or pool them), the
+// methods without a state argument use the backtracker's internal pool.
 type BacktrackerState struct {
 	// Visited stores generation numbers for (state, position) pairs.
 	// Layout: Visited[pos * NumStates + state] = generation when visited.
@@ -107,12 +126,42 @@ func NewBacktrackerState() *BacktrackerState {
 	return &BacktrackerState{}
 }
 
-// SetLongest enables or disables leftmost-longest match semantics on internal state.
+// SetLongest enables or disables leftmost-longest match semantics for the methods
+// without a state argument (the *WithState methods read Longest from their state).
 // When enabled, the backtracker finds the longest match at each position
 // instead of returning on the first match found.
-// Note: For thread-safe usage, set Longest directly on BacktrackerState.
+// This is configuration: call it before the backtracker is shared between
+// goroutines, not concurrently with searches.
 func (b *BoundedBacktracker) SetLongest(longest bool) {
 	b.internalState.Longest = longest
+}
+
+// acquireState returns a BacktrackerState that is owned by the caller until
+// releaseState. Used by the search methods without a state argument.
+func (b *BoundedBacktracker) acquireState() *BacktrackerState {
+	var st *BacktrackerState
+	// Load before Swap: under contention the slot is usually empty, and a
+	// plain load keeps the cache line shared instead of bouncing it.
+	if b.localState.Load() != nil {
+		st = b.localState.Swap(nil)
+	}
+	if st == nil {
+		if v := b.statePool.Get(); v != nil {
+			st = v.(*BacktrackerState)
+		} else {
+			st = NewBacktrackerState()
+		}
+	}
+	st.Longest = b.internalState.Longest
+	return st
+}
+
+// releaseState gives a BacktrackerState back after a search.
+func (b *BoundedBacktracker) releaseState(st *BacktrackerState) {
+	if b.localState.CompareAndSwap(nil, st) {
+		return
+	}
+	b.statePool.Put(st)
 }
 
 // NumStates returns the number of NFA states (for state allocation).
@@ -198,10 +247,12 @@ func (b *BoundedBacktracker) shouldVisit(s *BacktrackerState, state StateID, pos
 
 // IsMatch returns true if the pattern matches anywhere in the haystack.
 // This is optimized for boolean-only matching.
-// This method uses internal state and is NOT thread-safe.
-// For concurrent usage, use IsMatchWithState.
+// Safe for concurrent use: searches with a pooled state.
 func (b *BoundedBacktracker) IsMatch(haystack []byte) bool {
-	return b.IsMatchWithState(haystack, &b.internalState)
+	st := b.acquireState()
+	matched := b.IsMatchWithState(haystack, st)
+	b.releaseState(st)
+	return matched
 }
 
 // IsMatchWithState returns true if the pattern matches anywhere in the haystack.
@@ -223,9 +274,12 @@ func (b *BoundedBacktracker) IsMatchWithState(haystack []byte, state *Backtracke
 }
 
 // IsMatchAnchored returns true if the pattern matches at the start of haystack.
-// This method uses internal state and is NOT thread-safe.
+// Safe for concurrent use: searches with a pooled state.
 func (b *BoundedBacktracker) IsMatchAnchored(haystack []byte) bool {
-	return b.IsMatchAnchoredWithState(haystack, &b.internalState)
+	st := b.acquireState()
+	matched := b.IsMatchAnchoredWithState(haystack, st)
+	b.releaseState(st)
+	return matched
 }
 
 // IsMatchAnchoredWithState returns true if the pattern matches at the start of haystack.
@@ -241,9 +295,9 @@ func (b *BoundedBacktracker) IsMatchAnchoredWithState(haystack []byte, state *Ba
 
 // Search finds the first match in the haystack.
 // Returns (start, end, true) if found, (-1, -1, false) otherwise.
-// This method uses internal state and is NOT thread-safe.
+// Safe for concurrent use: searches with a pooled state.
 func (b *BoundedBacktracker) Search(haystack []byte) (int, int, bool) {
-	return b.SearchAtWithState(haystack, 0, &b.internalState)
+	return b.SearchAt(haystack, 0)
 }
 
 // SearchWithState finds the first match in the haystack.
@@ -257,9 +311,12 @@ func (b *BoundedBacktracker) SearchWithState(haystack []byte, state *Backtracker
 // Returns (start, end, true) if found, (-1, -1, false) otherwise.
 // This is used by FindAll* operations for efficient iteration.
 // In longest mode, finds the longest match at the leftmost position.
-// This method uses internal state and is NOT thread-safe.
+// Safe for concurrent use: searches with a pooled state.
 func (b *BoundedBacktracker) SearchAt(haystack []byte, at int) (int, int, bool) {
-	return b.SearchAtWithState(haystack, at, &b.internalState)
+	st := b.acquireState()
+	start, end, matched := b.SearchAtWithState(haystack, at, st)
+	b.releaseState(st)
+	return start, end, matched
 }
 
 // SearchAtWithState finds the first match starting from position 'at'.
